@@ -72,3 +72,22 @@ Theorem C17_total : forall fs vals v,
   exists x, value_at_value (fst (set_expressions td_empty fs)) vals v = Val x.
 Proof. exact C17_total_proof. Qed.
 Print Assumptions C17_total.
+
+(* REFUTED for the code before the repair (set_expression_lenient): "for any
+   set of time frames" includes frames the library accepts.  Two overlapping
+   frames listed out of chronological order were both accepted - the overlap
+   test only looked at the element the new frame starts in - and leaving later
+   then arrives EARLIER.  The repaired code (set_expression, what the theorems
+   above are about) answers the second call with the overlap error and keeps
+   the first frame. *)
+Theorem C17_overlap_accepted_refuted :
+  exists x1 x2,
+    snd (set_expressions_lenient td_empty ov_frames) = [SetOk; SetOk] /\
+    vals_ok ov_vals /\ 0 <= 431999 # 8 /\ 431999 # 8 <= 54000 /\
+    value_at_value (fst (set_expressions_lenient td_empty ov_frames)) ov_vals (431999 # 8) = Val x1 /\
+    value_at_value (fst (set_expressions_lenient td_empty ov_frames)) ov_vals 54000 = Val x2 /\
+    54000 + x2 < (431999 # 8) + x1 /\
+    snd (set_expressions td_empty ov_frames) = [SetOk; SetErr 7] /\
+    td_elems (fst (set_expressions td_empty ov_frames)) = td_elems (fst (set_expressions td_empty [(54000, 54120, 2%nat)]%Z)).
+Proof. exact C17_overlap_accepted_refuted_proof. Qed.
+Print Assumptions C17_overlap_accepted_refuted.
